@@ -60,6 +60,7 @@ func alphabet(thorough bool) []hx.Op {
 		{Kind: "upgrade", Chart: chartA, Atomic: true},
 		{Kind: "upgrade", Chart: chartB, CleanupOnFail: true},
 		{Kind: "upgrade", Chart: chartA, MaxHistory: 2},
+		{Kind: "upgrade", Chart: chartB, MaxHistory: 2, Atomic: true},
 		{Kind: "upgrade", Chart: chartH},
 		{Kind: "rollback", Version: 0},
 		{Kind: "rollback", Version: 1},
@@ -122,6 +123,8 @@ func config(tier string) *opspace.Config {
 				for _, o := range []hx.Op{
 					{Kind: "upgrade", Chart: chartB, MaxHistory: 10}, {Kind: "upgrade", Chart: chartA, MaxHistory: 3},
 					{Kind: "rollback", Version: 0, MaxHistory: 10}, {Kind: "rollback", Version: 0, MaxHistory: 5},
+					{Kind: "upgrade", Chart: chartB, MaxHistory: 10, Atomic: true},
+					{Kind: "uninstall", KeepHistory: true}, {Kind: "uninstall"},
 				} {
 					out = append(out, opspace.Step{Op: o})
 				}
@@ -352,10 +355,29 @@ func check(c *core.Ctx, t *opspace.Transition) {
 		}
 	}
 	sort.Ints(created)
-	for i, v := range created {
+	// every record creation of the operation, in order (a revision may be created and pruned again within
+	// one operation, e.g. the failed revision of an atomic upgrade with a history limit)
+	var createdInOp []int
+	for _, e := range res.Log {
+		if e.Applied && ((e.Class == "record-write" && e.Verb == "POST") || (e.Class == "store-write" && strings.HasPrefix(e.Label, "store:Create "))) {
+			var n int
+			fmt.Sscan(e.Label[strings.LastIndex(e.Label, ".v")+2:], &n)
+			createdInOp = append(createdInOp, n)
+		}
+	}
+	for i, v := range createdInOp {
 		if v != mp+1+i {
-			violate("T1-next-revision", fmt.Sprintf("created revision %d, highest existing was %d", v, mp))
+			violate("T1-next-revision", fmt.Sprintf("created revision %d (creations of this operation: %v), highest existing was %d", v, createdInOp, mp))
 			break
+		}
+	}
+	for _, v := range created {
+		ok := false
+		for _, w := range createdInOp {
+			ok = ok || v == w
+		}
+		if !ok {
+			violate("T1-unexplained-revision", fmt.Sprintf("revision %d appeared without a record creation by this operation", v))
 		}
 	}
 	// T2: success post-conditions
